@@ -152,8 +152,8 @@ namespace {
             op = o;
             o->start();
         }
+        while (S.nvalue + S.nerror + S.nstopped == 0) main_pause(3000000);
         sim_quiesce(3000000);
-        while (S.nvalue + S.nerror + S.nstopped == 0) main_pause();
         pika::wait();
         op.reset();
     }
